@@ -1,4 +1,4 @@
-import SaModel.Props.C01
+import SaModel.Props.C01Obs
 import SaModel.Props.C16
 import SaModel.Lemmas.C03Typed
 /-
@@ -97,17 +97,18 @@ theorem codecExt_ok (f32Str f64Str : Nat → String) (cast : Nat → Int → Boo
       exact inI64_bounds (SaModel.Props.C14.span_parse_exact _ sp _ v hp h).2.2.2
 
 /-- **C03 with the codec models plugged in**: no hypothesis on the external functions is left.  Remaining: `SchemaOKF`
-(no `FixedSizeBinary(0)`: known finding), `Safe`, and `SValOK` (the typing invariant of `SVal`). -/
+(no `FixedSizeBinary(0)`: known finding), `Safe` OR `coveredF` (the hypothesis of `Props.C01.C03_wf'`: both decidable on the
+schema), and `SValOK` (the typing invariant of `SVal`). -/
 theorem C03_wf_codec (f32Str f64Str : Nat → String) (cast : Nat → Int → Bool → Nat → Option (Bool × Int))
     (fields : List Field) (rows : List SVal) (arrs : List Arr)
     (hschema : ∀ f ∈ fields, Lemmas.C03.SchemaOKF f)
-    (hsafe : ∀ root0, newRoot fields = .ok root0 → Safe root0)
+    (hsafe : (∀ root0, newRoot fields = .ok root0 → Safe root0) ∨ fields.all Build.coveredF = true)
     (hrows : ∀ x ∈ rows, Lemmas.C03.SValOK x)
     (h : toMarrow (codecExt f32Str f64Str cast) fields rows = .ok arrs) :
     arrs.length = fields.length ∧
     ∀ (j : Nat) (f : Field) (a : Arr), fields[j]? = some f → arrs[j]? = some a →
       WF f a = true ∧ (decodeAll a).length = rows.length :=
-  C03_wf _ fields rows arrs hschema hsafe (codecExt_ok f32Str f64Str cast) hrows h
+  Props.C01.C03_wf' _ fields rows arrs hschema hsafe (codecExt_ok f32Str f64Str cast) hrows h
 
 /-- `SValOK`, the row hypothesis of `C03_wf`, is implied by the typing invariant of `SVal` (`SVal.typed`,
 Data/SValTyped.lean: every scalar call carries a value of its Rust type).  The wire decoder of the driver checks it
@@ -116,11 +117,11 @@ theorem typed_SValOK (x : SVal) (h : x.typed = true) : Lemmas.C03.SValOK x := Le
 
 /-- **C03 as the correspondence driver instantiates it**: codec models for the external functions, rows that passed the
 typing check of the wire decoder.  What remains are the schema exclusions (`SchemaOKF`: no `FixedSizeBinary(0)`, the
-known finding; `Safe`). -/
+known finding; `Safe` OR `coveredF`). -/
 theorem C03_wf_codec_typed (f32Str f64Str : Nat → String) (cast : Nat → Int → Bool → Nat → Option (Bool × Int))
     (fields : List Field) (rows : List SVal) (arrs : List Arr)
     (hschema : ∀ f ∈ fields, Lemmas.C03.SchemaOKF f)
-    (hsafe : ∀ root0, newRoot fields = .ok root0 → Safe root0)
+    (hsafe : (∀ root0, newRoot fields = .ok root0 → Safe root0) ∨ fields.all Build.coveredF = true)
     (hrows : ∀ x ∈ rows, x.typed = true)
     (h : toMarrow (codecExt f32Str f64Str cast) fields rows = .ok arrs) :
     arrs.length = fields.length ∧
@@ -133,13 +134,12 @@ example : SVal.typed (.record "R" (.cons "a" 0 (.int .u8 255) (.cons "c" 1 (.cha
     SVal.typed (.int .u8 256) = false ∧ SVal.typed (.char 0xD800) = false ∧ SVal.typed (.f32 4294967296) = false := by
   decide
 
-/-- **C01 with the codec models plugged in** (`C01_build_decode` holds for every `Ext`; this is its instance at the
+/-- **C01 with the codec models plugged in**, no `Safe` (`C01_build_decode'` holds for every `Ext`; this is its instance at the
 record the driver uses) -/
 theorem C01_build_decode_codec (f32Str f64Str : Nat → String) (cast : Nat → Int → Bool → Nat → Option (Bool × Int))
     (fields : List Field) (rows : List SVal) (arrs : List Arr)
     (hschema : ∀ f ∈ fields, Lemmas.C03.SchemaOKF f)
     (hcov : fields.all Build.coveredF = true)
-    (hsafe : ∀ root0, newRoot fields = .ok root0 → Safe root0)
     (hraw : ∀ x ∈ rows, Build.noRaw x = true)
     (h : toMarrow (codecExt f32Str f64Str cast) fields rows = .ok arrs) :
     arrs.length = fields.length ∧
@@ -150,7 +150,7 @@ theorem C01_build_decode_codec (f32Str f64Str : Nat → String) (cast : Nat → 
       ∀ (i : Nat) (hi : i < rows.length),
         interpRow (codecExt f32Str f64Str cast) fields rows[i] =
           .ok (.struct (LFields.ofList (cols.map fun c => (c.1, c.2.getD i .null)))) :=
-  Props.C01.C01_build_decode _ fields rows arrs hschema hcov hsafe (fun x hx => Build.noRaw_ssa x (hraw x hx)) (Or.inl hraw) h
+  Props.C01.C01_build_decode' _ fields rows arrs hschema hcov (fun x hx => Build.noRaw_ssa x (hraw x hx)) (Or.inl hraw) h
 
 /-! ### non-vacuity: temporal strings through the codec models -/
 
@@ -174,7 +174,7 @@ example : ∀ arrs, toMarrow exExt exTFields exTRows = .ok arrs →
     arrs.length = exTFields.length ∧ ∀ (j : Nat) (f : Field) (a : Arr), exTFields[j]? = some f →
       arrs[j]? = some a → WF f a = true ∧ (decodeAll a).length = exTRows.length := by
   intro arrs h
-  refine C03_wf_codec _ _ _ exTFields exTRows arrs ?_ ?_ ?_ h
+  refine C03_wf_codec _ _ _ exTFields exTRows arrs ?_ (Or.inl ?_) ?_ h
   · simp [exTFields, Lemmas.C03.SchemaOKF, Lemmas.C03.SchemaOK]
   · intro root0 h0
     rw [show newRoot exTFields = .ok (.struct "$" 0 none
